@@ -1,12 +1,13 @@
 #!/bin/sh
-# usage: tools/eval_all_seeded.sh C20 [also-list]   -- evaluates /tmp/seed/out/<ID>/patch{1,2,3}.diff
+# usage: tools/eval_all_seeded.sh C20 [also-list] [source-dir=/tmp/seed/out] [name-infix, e.g. r2-]
+# evaluates <source-dir>/<ID>/patch{1,2,3}.diff and stores valid ones as seeded/<ID>-<infix><k>/
 cd "$(dirname "$0")/.." || exit 2
-id="$1"; also="$2"
+id="$1"; also="$2"; src="${3:-/tmp/seed/out}"; infix="$4"
 for k in 1 2 3; do
-  d=/tmp/seed/out/$id
+  d=$src/$id
   [ -f $d/patch$k.diff ] && [ -f $d/demo$k.py ] || continue
-  echo "=== $id-$k"
-  tools/eval_seeded.py $id $d/patch$k.diff $d/demo$k.py --save=$id-$k --meta=$d/meta$k.json ${also:+--also=$also} 2>&1 | grep -v WARN | python3 -c "
+  echo "=== $id-$infix$k"
+  tools/eval_seeded.py $id $d/patch$k.diff $d/demo$k.py --save=$id-$infix$k --meta=$d/meta$k.json ${also:+--also=$also} 2>&1 | grep -v WARN | python3 -c "
 import sys,json
 t=sys.stdin.read()
 try:
